@@ -1099,9 +1099,9 @@ def sched_check():
                 new_block = [None]
                 real_advance = bp.advance_block
 
-                def advance_block(block):
+                def advance_block(block, *args, **kwargs):
                     seen.append(('advance', mgr._reorg_count, len(mgr._tx_hashes_cache)))
-                    return real_advance(block)
+                    return real_advance(block, *args, **kwargs)
                 bp.advance_block = advance_block
                 # the real lock-taking run_with_lock and range calculation of BlockProcessor
                 bp.run_with_lock = types.MethodType(c['bpmod'].BlockProcessor.run_with_lock, bp)
